@@ -234,6 +234,7 @@ CHECKS = {
         "jobs": [
             {"run": "^TestC14Transfer$", "n": {"quick": 600, "thorough": 6000}, "shrinktime": "30s"},
             {"run": "^TestC14HashLaws$", "n": {"quick": 60, "thorough": 600}},
+            {"run": "^TestC14LateRegistration$", "n": {"quick": 40, "thorough": 300}},
         ],
     },
     "C15": {
@@ -285,6 +286,7 @@ CHECKS = {
         "assumptions": ["callbacks do not block"],
         "jobs": [
             {"run": "^TestC17Invalidator$", "n": {"quick": 15000, "thorough": 100000}},
+            {"run": "^TestC17RealTime$", "n": {"quick": 40, "thorough": 150}, "shrinktime": "10s"},
         ],
     },
     "C18": {
